@@ -45,6 +45,7 @@ public:
 private:
   double f1, f2, x0, x1, x2, x3;
   double xinf_, xsup_;
+  double xinit_, finit_; // the value the parameter had when init() was called, and the function value there
   bool isInitialIntervalSet_;
 
 public:
@@ -77,6 +78,14 @@ public:
   void doInit(const ParameterList& params) override;
 
   double doStep() override;
+
+  /**
+   * @brief Run the search, then report the best point visited.
+   *
+   * The parameter is set to the better of the two inner points of the final bracket,
+   * or left at its initial value if no better point was found.
+   */
+  double optimize() override;
 
   /**
    * @name Specific method
